@@ -26,10 +26,10 @@ Intended(exp, i, w) ==
   ELSE IF conn.authd THEN TRUE
   ELSE srv.requirepass /\ conn.st = "open" /\ RightAuth(i, w) /\ w \notin HttpW
 
-GConnect(p) ==
+GConnect(p, e) ==
   /\ conn.st = "none"
-  /\ p \in Peers(srv)
-  /\ conn' = [NoConn EXCEPT !.st = IF Refuses(srv, p) THEN "refused" ELSE "open", !.peer = p]
+  /\ p \in Peers(srv) /\ e \in Earlies(srv)
+  /\ conn' = [NoConn EXCEPT !.st = IF Refuses(srv, p) THEN "refused" ELSE "open", !.peer = p, !.early = e]
   /\ hist' = Append(hist, [k |-> "connect", peer |-> p, i |-> "-", w |-> "-", pre |-> conn, post |-> conn',
                            exp |-> ConnectGate(srv, p)])
   /\ UNCHANGED <<srv, last>>
@@ -42,7 +42,7 @@ GCmd(i, w) ==
                               exp |-> exp])
   /\ UNCHANGED <<srv, last>>
 
-GNext == (\E p \in {"lo", "nl"} : GConnect(p)) \/ (\E i \in Insts, w \in Wrappers : GCmd(i, w))
+GNext == (\E p \in {"lo", "nl"}, e \in BOOLEAN : GConnect(p, e)) \/ (\E i \in Insts, w \in Wrappers : GCmd(i, w))
 GSpec == GInit /\ [][GNext]_gvars
 GView == <<srv, conn>>
 
@@ -57,7 +57,7 @@ SimPick ==
   IN IF ws = {} THEN UNCHANGED gvars ELSE GCmd(i, RandomElement(ws))
 Complete == conn.st = "done" \/ (conn.st \in {"open", "refused"} /\ conn.n >= MaxCmds)
 SimNext ==
-  \/ \E p \in {"lo", "nl"} : GConnect(p)
+  \/ \E p \in {"lo", "nl"}, e \in BOOLEAN : GConnect(p, e)
   \/ conn.st \in {"open", "refused"} /\ ~Complete /\ SimPick
   \/ Complete /\ PrintT(<<"TR", Payload(hist)>>) /\ conn' = [conn EXCEPT !.st = "printed"] /\ UNCHANGED <<srv, last, hist>>
 SimSpec == GInit /\ [][SimNext]_gvars
